@@ -196,6 +196,12 @@ func nonNilAt(v ssa.Value, at ssa.Instruction) bool {
 // elemsCheckedBefore: a `for _, e := range s { if e == nil { return ... } }`
 // loop over the whole of s has finished before at runs.
 func elemsCheckedBefore(s ssa.Value, at ssa.Instruction) bool {
+	return elemsComparedBefore(s, at, isNilConst)
+}
+
+// elemsComparedBefore: the same for a comparison with any constant that
+// isBad recognises (`if e == 0 { return ... }`).
+func elemsComparedBefore(s ssa.Value, at ssa.Instruction, isBad func(ssa.Value) bool) bool {
 	fn := at.Parent()
 	for _, b := range fn.Blocks {
 		if len(b.Instrs) == 0 {
@@ -211,9 +217,9 @@ func elemsCheckedBefore(s ssa.Value, at ssa.Instruction) bool {
 		}
 		var other ssa.Value
 		switch {
-		case isNilConst(cmp.Y):
+		case isBad(cmp.Y):
 			other = cmp.X
-		case isNilConst(cmp.X):
+		case isBad(cmp.X):
 			other = cmp.Y
 		default:
 			continue
